@@ -1402,6 +1402,12 @@ func (sc *serverConn) processFrameFromReader(res readFrameResult) bool {
 
 	switch ev := err.(type) {
 	case StreamError:
+		if res.err != nil && ev.StreamID%2 == 1 && ev.StreamID > sc.maxClientStreamID {
+			// The framer rejected a frame (a malformed header block) on a
+			// client stream id we have not seen yet: the client has used
+			// that id, so it must not be accepted for a new stream later.
+			sc.maxClientStreamID = ev.StreamID
+		}
 		sc.resetStream(ev)
 		return true
 	case goAwayFlowError:
